@@ -69,7 +69,7 @@ def gen_cases(seed, tier):
         c["dims"] = (2, 3, 2, 1, 3, 4)[i % 6] if tier == "quick" else (1, 2, 3, 4)[i % 4]
         ss = stream_seeds(seed, ID, 1 + i)
         out.append({"run_index": i, "cfg": c, "seed": ss["scenario"] % (1 << 30), "tier": tier,
-                    "replicates": 12 if tier == "quick" else 48, "n_draw": 2000})
+                    "replicates": 12 if tier == "quick" else 32, "n_draw": 2000})
     return out
 
 
